@@ -30,6 +30,36 @@ def log(msg):
     sys.stderr.flush()
 
 
+def reset_signal_state():
+    """in a freshly forked child: default disposition for every signal and an empty mask, so that nothing of the
+    caller's signal state (a background job has SIGINT/SIGQUIT ignored, a supervisor may block signals) reaches the
+    processes under test"""
+    import signal
+    for n in range(1, 32):
+        if n in (signal.SIGKILL, signal.SIGSTOP):
+            continue
+        try:
+            signal.signal(n, signal.SIG_DFL)
+        except (OSError, ValueError, RuntimeError):
+            pass
+    try:
+        signal.pthread_sigmask(signal.SIG_SETMASK, [])
+    except (OSError, ValueError):
+        pass
+
+
+def ensure_std_fds():
+    """a caller may have closed 0, 1 or 2: later pipes would land there"""
+    for fd in (0, 1, 2):
+        try:
+            os.fstat(fd)
+        except OSError:
+            n = os.open("/dev/null", os.O_RDWR)
+            if n != fd:
+                os.dup2(n, fd)
+                os.close(n)
+
+
 def _cargo_env(hooks):
     env = dict(os.environ)
     env["CARGO_NET_OFFLINE"] = "true"
